@@ -450,7 +450,18 @@ int64_t cmb_process_wait_process(struct cmb_process *awaited)
         /* Yield to the dispatcher and collect the return signal value */
         const int64_t sig = (int64_t)cmi_coroutine_yield(NULL);
 
-        /* Possibly much later */
+        /*
+         * Possibly much later. If woken by anything else than the end of the
+         * awaited process, we are still registered: withdraw, or this wait
+         * would resume us out of some later, unrelated call.
+         */
+        if (cmi_process_remove_awaitable(me, CMI_PROCESS_AWAITABLE_PROCESS, awaited)) {
+            if (!cmi_process_remove_waiter(awaited, me)) {
+                /* It ended in this same instant, our wakeup is already pending */
+                (void)cmb_event_pattern_cancel(wakeup_event_process, me, CMB_ANY_OBJECT);
+            }
+        }
+
         return sig;
     }
 }
@@ -458,6 +469,7 @@ int64_t cmb_process_wait_process(struct cmb_process *awaited)
 /* Friendly functions in cmi_event.c, not part of the public interface */
 extern void cmi_event_add_waiter(uint64_t key, struct cmb_process *pp);
 extern bool cmi_event_remove_waiter(uint64_t key, const struct cmb_process *pp);
+extern void cmi_event_cancel_wakeups(const struct cmb_process *pp);
 
 /*
  * cmb_process_wait_event - Wait for an event to occur.
@@ -482,7 +494,18 @@ int64_t cmb_process_wait_event(const uint64_t ev_handle)
     /* Yield to the dispatcher and collect the return signal value */
     const int64_t ret = (int64_t)cmi_coroutine_yield(NULL);
 
-    /* Possibly much later */
+    /*
+     * Possibly much later. If woken by anything else than the event (or its
+     * cancellation), we are still registered: withdraw, or this wait would
+     * resume us out of some later, unrelated call.
+     */
+    if (cmi_process_remove_awaitable(me, CMI_PROCESS_AWAITABLE_EVENT, (void *)ev_handle)) {
+        if (!cmi_event_remove_waiter(ev_handle, me)) {
+            /* It happened in this same instant, our wakeup is already pending */
+            cmi_event_cancel_wakeups(me);
+        }
+    }
+
     return ret;
 }
 
@@ -537,7 +560,6 @@ bool cmi_process_remove_waiter(struct cmb_process *pp,
     cmb_assert_debug(waiter != NULL);
 
     struct cmi_slist_head *waiters = &(pp->waiters);
-    cmb_assert_debug(!cmi_slist_is_empty(waiters));
 
     while (waiters->next != NULL) {
         struct cmi_process_waiter *pw = cmi_container_of(waiters->next,
